@@ -33,14 +33,15 @@ ASSUMPTIONS = ["clause 'exactly the most recent port' is judged only when "
                "miss_send_len is what the nexus configures (128); frames "
                "always contain both addresses within it",
                "topologies are loop-free lines; all ports are up"]
-REQUIRED = ["installed_flows_between_the_same_stations_that_are_for_other_traffic", "frames", "arrivals_judged", "floods", "known_dst_forwards",
+REQUIRED = ["histories_with_very_many_stations", "installed_flows_between_the_same_stations_that_are_for_other_traffic", "frames", "arrivals_judged", "floods", "known_dst_forwards",
             "exact_port_checks", "cached_flow_hits", "filtered_frames",
             "host_moves", "buffers_released", "timeouts_crossed",
             "unbuffered_packet_ins", "bursts", "frames_to_own_source",
             "cached_flow_deliveries_checked", "group_addresses_next_to_the_filtered_range"]
 TIMEOUT = {"quick": 1200, "thorough": 9000}
 
-HOSTS = [bytes.fromhex("0200000000%02x" % (0xa0 + i)) for i in range(5)]
+HOSTS = [bytes.fromhex("0200000000%02x" % (0xa0 + i)) for i in range(5)] + \
+    [bytes([2, 0, 0, i >> 8, i & 255, 0xb0]) for i in range(5, 6000)]
 BCAST = b"\xff" * 6
 MCAST = bytes.fromhex("01005e000005")
 STP = bytes.fromhex("0180c2000000")
@@ -532,6 +533,19 @@ def gen_moves (rng, count):
     yield dict(nsw=nsw, pool=pool, ops=ops)
 
 
+def gen_mass (rng, sizes):
+  """Very many stations behind one switch: each is heard once, then some of
+  the first and some of the last are spoken to - every one of them is still
+  known on its port, however many came after it."""
+  for n in sizes:
+    ops = [[h, 0, 1 + h % 4, "bcast", "plain", 50, 0] for h in range(n)]
+    for _ in range(12):
+      d = rng.choice([0, 1, 2, 3, n // 2, n - 1, n - 2, rng.randrange(n)])
+      src = rng.choice([x for x in (0, 1, 5, n - 1, n - 3) if x != d and x % 4 != d % 4] or [d + 1])
+      ops.append([src, 0, 1 + src % 4, d, "plain", 50, 0])
+    yield dict(nsw=1, pool=rng.choice([0, 100]), ops=ops, mass=n)
+
+
 def gen_random (rng, count, maxlen):
   for _ in range(count):
     nsw = rng.choice([1, 2, 2, 3])
@@ -570,13 +584,15 @@ def plan (tier, seed):
             [dict(mode="exh", n=2, nsw=2, shard=i, nshards=4) for i in range(4)] +
             [dict(mode="exh", n=3, nsw=2, shard=i, nshards=64) for i in range(4)] +
             [dict(mode="rand", count=80, maxlen=60, sub=i) for i in range(4)] +
-            [dict(mode="moves", count=150, sub=i) for i in range(2)])
+            [dict(mode="moves", count=150, sub=i) for i in range(2)] +
+            [dict(mode="mass", sizes=[70, 300], sub=0), dict(mode="mass", sizes=[1100], sub=1)])
   return ([dict(mode="exh", n=3, nsw=1, shard=i, nshards=8) for i in range(8)] +
           [dict(mode="exh", n=3, nsw=2, shard=i, nshards=8) for i in range(8)] +
           [dict(mode="exh", n=4, nsw=2, shard=i, nshards=64) for i in range(32)] +
           [dict(mode="exh", n=4, nsw=1, shard=i, nshards=32) for i in range(16)] +
           [dict(mode="rand", count=1500, maxlen=200, sub=i) for i in range(32)] +
-          [dict(mode="moves", count=4000, sub=i) for i in range(8)])
+          [dict(mode="moves", count=4000, sub=i) for i in range(8)] +
+          [dict(mode="mass", sizes=[k], sub=k) for k in (130, 260, 520, 1030, 2060, 4100, 5900)])
 
 
 def run (spec, rep):
@@ -585,13 +601,19 @@ def run (spec, rep):
   elif spec["mode"] == "moves":
     rng = random.Random("c11/moves/%d/%d" % (spec["seed"], spec["sub"]))
     g = gen_moves(rng, spec["count"])
+  elif spec["mode"] == "mass":
+    rng = random.Random("c11/mass/%d/%d" % (spec["seed"], spec["sub"]))
+    g = gen_mass(rng, spec["sizes"])
   else:
     rng = random.Random("c11/%d/%d" % (spec["seed"], spec["sub"]))
     g = gen_random(rng, spec["count"], spec["maxlen"])
   first = True
   for case in g:
+    if case.get("mass"):
+      rep.count("histories_with_very_many_stations")
+      rep.maxi("stations_behind_one_switch", case["mass"])
     do_case(case, rep)
-    if first: rep.sample(case); first = False
+    if first and not case.get("mass"): rep.sample(case); first = False
 
 
 def replay (witness, rep):
